@@ -171,16 +171,15 @@ func elemOf(t types.Type) types.Type {
 	return nil
 }
 
-
 // ---- per-function flow ------------------------------------------------------------------------------------
 
 type mutEvent struct {
 	in    ssa.Instruction
 	kind  string // "write" | "cont-write" | "undecided"
 	why   string
-	deep  mutWhy                // for events of callees: where the cause lies
-	what  string                // construct (for keys): callee name, "append", "store", …
-	line  map[ssa.Value]bool    // cont-write: the containers that may be written
+	deep  mutWhy             // for events of callees: where the cause lies
+	what  string             // construct (for keys): callee name, "append", "store", …
+	line  map[ssa.Value]bool // cont-write: the containers that may be written
 	where string
 }
 
